@@ -136,3 +136,86 @@ rebuild_avx2!(slim_avx2_1, fat_avx2_1, 1);
 rebuild_avx2!(slim_avx2_2, fat_avx2_2, 2);
 rebuild_avx2!(slim_avx2_3, fat_avx2_3, 3);
 rebuild_avx2!(slim_avx2_4, fat_avx2_4, 4);
+
+// ---- direct calls (no trait object) for the 256-bit variants.
+//
+// Kani 0.68 mis-models `Arc<dyn Trait>` around a payload with 32-byte
+// alignment (a 12-line reproducer fails with "dereference failure: pointer
+// invalid"; with a 16-byte aligned payload it passes), which is exactly what
+// `Searcher { imp: Arc<dyn SearcherT> }` is for `SlimAVX2`/`FatAVX2`. The
+// harnesses therefore call the concrete implementation through `find_with`,
+// whose body is that of `Searcher::find` with `self.imp` replaced by the
+// concrete value; the wrapper itself is exercised by the 128-bit harnesses.
+
+use crate::packed::ext::Pointer;
+
+fn find_with<T: SearcherT>(
+    imp: &T,
+    minimum_len: usize,
+    haystack: &[u8],
+    at: usize,
+) -> Option<crate::Match> {
+    assert!(haystack[at..].len() >= minimum_len);
+    let hayptr = haystack.as_ptr();
+    let teddym =
+        unsafe { imp.find(hayptr.add(at), hayptr.add(haystack.len()))? };
+    let start = teddym.start().as_usize().wrapping_sub(hayptr.as_usize());
+    let end = teddym.end().as_usize().wrapping_sub(hayptr.as_usize());
+    let span = crate::Span { start, end };
+    let pid = crate::PatternID::new_unchecked(teddym.pattern().as_usize());
+    Some(crate::Match::new(pid, span))
+}
+
+macro_rules! direct_avx2 {
+    ($slim:ident, $fat:ident, $len:expr) => {
+        pub(crate) fn $slim(
+            patterns: Arc<Patterns>,
+            buckets: &'static [&'static [u32]; 8],
+            masks: &'static [([u8; 16], [u8; 16])],
+            buckets256: &'static [&'static [u32]; 16],
+            masks256: &'static [([u8; 32], [u8; 32])],
+            haystack: &[u8],
+            at: usize,
+        ) -> (usize, Option<crate::Match>) {
+            let slim128 = unsafe {
+                generic::verif::slim128_from_parts::<$len>(Arc::clone(&patterns), buckets, masks)
+            };
+            let slim256 = unsafe {
+                generic::verif::slim256_from_parts::<$len>(patterns, buckets256, masks256)
+            };
+            let minimum_len = slim128.minimum_len();
+            let imp = SlimAVX2::<$len> { slim128, slim256 };
+            if haystack.len() - at < minimum_len {
+                core::mem::forget(imp);
+                return (minimum_len, None);
+            }
+            let r = find_with(&imp, minimum_len, haystack, at);
+            core::mem::forget(imp);
+            (minimum_len, r)
+        }
+        pub(crate) fn $fat(
+            patterns: Arc<Patterns>,
+            buckets256: &'static [&'static [u32]; 16],
+            masks256: &'static [([u8; 32], [u8; 32])],
+            haystack: &[u8],
+            at: usize,
+        ) -> (usize, Option<crate::Match>) {
+            let fat256 = unsafe {
+                generic::verif::fat256_from_parts::<$len>(patterns, buckets256, masks256)
+            };
+            let minimum_len = fat256.minimum_len();
+            let imp = FatAVX2::<$len> { fat256 };
+            if haystack.len() - at < minimum_len {
+                core::mem::forget(imp);
+                return (minimum_len, None);
+            }
+            let r = find_with(&imp, minimum_len, haystack, at);
+            core::mem::forget(imp);
+            (minimum_len, r)
+        }
+    };
+}
+direct_avx2!(slim_avx2_find_1, fat_avx2_find_1, 1);
+direct_avx2!(slim_avx2_find_2, fat_avx2_find_2, 2);
+direct_avx2!(slim_avx2_find_3, fat_avx2_find_3, 3);
+direct_avx2!(slim_avx2_find_4, fat_avx2_find_4, 4);
